@@ -271,9 +271,25 @@ def check_unfocus(case, ctx):
             Y = U.cvec(py_) * dxp - sgn * sh[1]
             ref = (np.exp(2j * np.pi * np.outer(Y, xi_y) / (lam * efl)) @ Fn @ np.exp(2j * np.pi * np.outer(xi_x, X) / (lam * efl))) * norm
             errs[sgn] = float(np.abs(np.abs(g) - np.abs(ref)).max()) if np.all(np.isfinite(g)) else float('inf')
-        ctx.require(min(errs.values()) <= (2e-3 if fdt == 'float32' else 1e-9) * sc, 'unfocus_fixed_sampling:' + route + ':shift',
+        tol_ = (2e-3 if fdt == 'float32' else 1e-9) * sc
+        ctx.require(min(errs.values()) <= tol_, 'unfocus_fixed_sampling:' + route + ':shift',
                     '%s unfocus of %s onto %s (dx %.6g mm) with shift %r mm: modulus is off the explicit inverse sum at the shifted coordinates by %.3g / %.3g (scale %.3g)' % (
                         route, fshape, (py_, px_), dxp, sh, errs[1], errs[-1], sc))
+        # "for both fixed-sampling methods": the other method translates the same way (decidable when the two directions differ in modulus,
+        # i.e. the focal field has more than one spot)
+        other = 'czt' if route == 'mdft' else 'mdft'
+        if via == 'function':
+            g2 = ctx.call(P.unfocus_fixed_sampling, F, dxf, efl, lam, dxp, (py_, px_), shift=sh, method=other)
+        else:
+            g2 = ctx.call(P.Wavefront(F, lam, dxf, space='psf').unfocus_fixed_sampling, efl, dxp, (py_, px_), shift=sh, method=other).data
+        g2 = np.asarray(g2)
+        U.check_shape(g2, (py_, px_), 'unfocus_fixed_sampling')
+        e12 = float(np.abs(np.abs(g) - np.abs(g2)).max()) if np.all(np.isfinite(g2)) else float('inf')
+        ctx.require(e12 <= 2 * tol_, 'unfocus_fixed_sampling:shift:mdft-vs-czt',
+                    'mdft and czt unfocus of %s onto %s with shift %r mm differ in modulus by %.3g (scale %.3g): the two methods do not translate the output alike' % (
+                        fshape, (py_, px_), sh, e12, sc))
+        if abs(errs[1] - errs[-1]) > 10 * tol_:
+            ctx.label('unfocus-shift-direction-decidable')
         return
     X = U.cvec(px_) * dxp
     Y = U.cvec(py_) * dxp
